@@ -23,7 +23,7 @@ for name in sorted(os.listdir(SEEDED)):
     for pid, r in sorted(meta.get("checks", {}).items()):
         if r.get("caught"):
             sigs = r.get("signatures") or []
-            s = ", ".join("`%s`" % x for x in sigs[:2])
+            s = ", ".join("`%s`" % x.replace("|", "\\|") for x in sigs[:2])
             caught.append("%s %s" % (pid, s) if s else pid)
         else:
             caught.append("%s: not caught" % pid)
